@@ -63,7 +63,7 @@ PROPS = {
                       "proved balanced; the scoping statements are exactly the six of the property (enumerated)",
                 trusted=TRUSTED,
                 explanation="[P] T1-T8 (incl. SymbolTable.lookup, add_use_symbols), U8a, F9 Intrinsic_Function_Reference.match; [E] scoping class set, scope call sites; [B] generated scope trees (bounded_scopes.py)"),
-    "C17": dict(level="other", enum=["enum_registries.py --only C17"],
+    "C17": dict(level="other", enum=["enum_registries.py --only C17", "bounded_harvest.py --only C17"],
                 claim="registry inclusion f2003 within f2008 enumerated on the real ParserFactory output; 2008-only rules absent from the 2003 "
                       "registry; the three Fortran 2008 rules that delegate to their 2003 "
                       "rule are proved to return the 2003 result whenever there is one; replaced constituents keep the 2003 alternatives (enumerated); "
